@@ -36,7 +36,11 @@ func rounds(ntasks, n int) []ts.Act {
 }
 
 func run(cfg lib.Cfg) error {
-	out := lib.NewOut("C03", cfg.Out, ts.Header(3), "run", 8)
+	shard := 8
+	if !cfg.Thorough() {
+		shard = 3 // quick tier: smaller files, the wall time is that of the largest shard
+	}
+	out := lib.NewOut("C03", cfg.Out, ts.Header(3), "run", shard)
 	out.Rule = "non-trivial = rows of an indexed block were orphaned by a reorg (a reorg unwind deleted at least one row)"
 	judge := func(sc *ts.Scenario, kind string) {
 		ts.Judge(out, sc, kind, func(r *ts.Run) []string {
